@@ -32,6 +32,7 @@ if REPO not in sys.path:
     sys.path.insert(0, REPO)
 
 TRUSTED = [
+    'tools/cyexec.py (Cython-subset source executor, validated by its --selftest and by bit-identical agreement with the binaries on the unchanged tree): the source reading of the hand-written .pyx/.pxi files',
     'Lean 4.33 kernel; axioms of every theorem within {propext, Classical.choice, Quot.sound} (audited each run)',
     'Mathlib v4.33 (interval integrals: integral_sin, integral_comp_mul_left, integral_eq_sub_of_hasDerivAt; '
     'ring/field_simp/linarith/omega)',
